@@ -128,6 +128,21 @@ static RCP<const Set> make_set_intersection(const set_set &in)
     return *in.begin();
 }
 
+// Last resort of the member set_intersection of the number sets.  The n-ary
+// set_intersection distributes over a Union and pulls out a Complement; for
+// any other operand its pair-wise rule would call the member function of the
+// same pair again (unbounded recursion), so the node is built directly.
+static RCP<const Set> set_intersection_fallback(const RCP<const Set> &self,
+                                                const RCP<const Set> &o)
+{
+    if (is_a<Union>(*o) or is_a<Complement>(*o) or is_a<UniversalSet>(*o)) {
+        return SymEngine::set_intersection({self, o});
+    } else if (is_a<Intersection>(*o) or is_a<ConditionSet>(*o)) {
+        return o->set_intersection(self);
+    }
+    return make_set_intersection({self, o});
+}
+
 RCP<const Set> Interval::set_intersection(const RCP<const Set> &o) const
 {
     if (is_a<Interval>(*o)) {
@@ -199,8 +214,7 @@ RCP<const Set> Interval::set_intersection(const RCP<const Set> &o) const
             }
             return finiteset(container);
         } else {
-            return SymEngine::set_intersection(
-                {rcp_from_this_cast<const Set>(), o});
+            return make_set_intersection({rcp_from_this_cast<const Set>(), o});
         }
     }
     if (is_a<UniversalSet>(*o) or is_a<EmptySet>(*o) or is_a<FiniteSet>(*o)
@@ -283,8 +297,7 @@ RCP<const Set> Complexes::set_intersection(const RCP<const Set> &o) const
     } else if (is_a<FiniteSet>(*o)) {
         return (*o).set_intersection(rcp_from_this_cast<const Set>());
     } else {
-        return SymEngine::set_intersection(
-            {rcp_from_this_cast<const Set>(), o});
+        return set_intersection_fallback(rcp_from_this_cast<const Set>(), o);
     }
 }
 
@@ -363,8 +376,7 @@ RCP<const Set> Reals::set_intersection(const RCP<const Set> &o) const
     } else if (is_a<FiniteSet>(*o) or is_a<Complexes>(*o)) {
         return (*o).set_intersection(rcp_from_this_cast<const Set>());
     } else {
-        return SymEngine::set_intersection(
-            {rcp_from_this_cast<const Set>(), o});
+        return set_intersection_fallback(rcp_from_this_cast<const Set>(), o);
     }
 }
 
@@ -445,8 +457,7 @@ RCP<const Set> Rationals::set_intersection(const RCP<const Set> &o) const
     } else if (is_a<FiniteSet>(*o) or is_a<Reals>(*o) or is_a<Complexes>(*o)) {
         return (*o).set_intersection(rcp_from_this_cast<const Set>());
     } else {
-        return SymEngine::set_intersection(
-            {rcp_from_this_cast<const Set>(), o});
+        return set_intersection_fallback(rcp_from_this_cast<const Set>(), o);
     }
 }
 
@@ -526,8 +537,7 @@ RCP<const Set> Integers::set_intersection(const RCP<const Set> &o) const
     } else if (is_a<FiniteSet>(*o) or is_a<Interval>(*o)) {
         return (*o).set_intersection(rcp_from_this_cast<const Set>());
     } else {
-        return SymEngine::set_intersection(
-            {rcp_from_this_cast<const Set>(), o});
+        return set_intersection_fallback(rcp_from_this_cast<const Set>(), o);
     }
 }
 
@@ -614,8 +624,7 @@ RCP<const Set> Naturals::set_intersection(const RCP<const Set> &o) const
     } else if (is_a<FiniteSet>(*o) or is_a<Interval>(*o)) {
         return (*o).set_intersection(rcp_from_this_cast<const Set>());
     } else {
-        return SymEngine::set_intersection(
-            {rcp_from_this_cast<const Set>(), o});
+        return set_intersection_fallback(rcp_from_this_cast<const Set>(), o);
     }
 }
 
@@ -700,8 +709,7 @@ RCP<const Set> Naturals0::set_intersection(const RCP<const Set> &o) const
     } else if (is_a<FiniteSet>(*o) or is_a<Interval>(*o)) {
         return (*o).set_intersection(rcp_from_this_cast<const Set>());
     } else {
-        return SymEngine::set_intersection(
-            {rcp_from_this_cast<const Set>(), o});
+        return set_intersection_fallback(rcp_from_this_cast<const Set>(), o);
     }
 }
 
